@@ -518,8 +518,10 @@ def _deriv(p):
                 dv.append(int(d["v"]))
             elif d["as"] == "name":
                 dv.append(str(d["v"]))
-            else:
+            elif d["as"] == "poly":
                 dv.append(numpoly.symbols(str(d["v"])))
+            else:                                      # an element of the array of the polynomial's own indeterminates
+                dv.append(poly.indeterminants[list(poly.names).index(str(d["v"]))])
         return numpoly.derivative(poly, *dv)
     return run
 
